@@ -116,6 +116,8 @@ def replay(contract, rec):
     q = contract.qualname
     meth = q.split('.')[1]
     inp = rec['inputs']
+    if meth == 'clear_features':
+        return replay_clear(contract, rec)
     if any(isinstance(v, str) and v.startswith('<') for v in inp.values()):
         return dict(reproduced=False, note='model not ground')
     body = REPLAY_HEAD % json.dumps(inp)
